@@ -1,7 +1,9 @@
 // Correspondence harness for C19 (configured upstream time limits are enforced):
 // runs the real transport.SetConfig / transport.NewTransport on generated histories,
-// the per-route transport of route.NewTable, the real httpProxyErrorHandler and the
-// real HTTPProxy in front of a slow loopback upstream.
+// the per-route transport of route.NewTable, the real httpProxyErrorHandler, the
+// real HTTPProxy in front of a slow loopback upstream for each kind of target
+// (default, skip-verify, per-route host override) and fabio's real main() in a
+// separate process (driver /repo/verif_c19_test.go).
 package main
 
 import (
@@ -58,7 +60,7 @@ func (l limits) cfg() *config.Config {
 }
 
 func randDur(r *rand.Rand) int64 {
-	switch r.Intn(6) {
+	switch r.Intn(8) {
 	case 0:
 		return 0
 	case 1:
@@ -67,79 +69,137 @@ func randDur(r *rand.Rand) int64 {
 		return int64(time.Duration(1+r.Intn(600)) * time.Second)
 	case 3:
 		return int64(1 + r.Intn(1000)) // nanoseconds
+	case 4:
+		// negative: config.Load accepts them (flag.DurationVar); "every value of the five options"
+		return -[]int64{1, int64(time.Millisecond), int64(time.Second), 1 + r.Int63n(int64(48*time.Hour))}[r.Intn(4)]
 	default:
 		return r.Int63n(int64(48 * time.Hour))
 	}
 }
+func randMaxConn(r *rand.Rand) int64 {
+	switch r.Intn(6) {
+	case 0:
+		return 0
+	case 1:
+		return -int64(1 + r.Intn(20000)) // proxy.maxconn is an int flag: negative values are accepted
+	case 2:
+		return int64(1 + r.Intn(3))
+	default:
+		return int64(r.Intn(20000))
+	}
+}
 func randLimits(r *rand.Rand) limits {
-	return limits{randDur(r), randDur(r), int64(r.Intn(20000)), randDur(r), randDur(r)}
+	return limits{randDur(r), randDur(r), randMaxConn(r), randDur(r), randDur(r)}
 }
 
-// dialerOf recovers the *net.Dialer bound in the method value tr.Dial
-// ((&net.Dialer{...}).Dial): a func value points to a closure object whose
-// first word is the code pointer and whose second word is the bound receiver.
-// The layout is checked on a dialer of our own before it is relied on.
-func dialerOf(f func(network, addr string) (net.Conn, error)) *net.Dialer {
-	type closure struct {
-		fn   uintptr
-		recv *net.Dialer
+// The net.Dialer of a transport is bound in a method value ((&net.Dialer{...}).Dial or .DialContext).
+// A func value points to a closure object whose first word is the code pointer and whose second word,
+// for a method value, is the bound receiver.  boundDialer reads the receiver of the func variable at fp
+// provided its code pointer is that of the same method value taken from a dialer of our own (probe);
+// any other function (a closure, a wrapper) is reported as not readable, never guessed.
+type closure struct {
+	fn   uintptr
+	recv *net.Dialer
+}
+
+func boundDialer(fp, probe unsafe.Pointer, probeRecv *net.Dialer) (*net.Dialer, bool) {
+	pc := *(**closure)(probe)
+	c := *(**closure)(fp)
+	if pc == nil || c == nil || pc.recv != probeRecv || c.fn != pc.fn {
+		return nil, false
 	}
-	return (*(**closure)(unsafe.Pointer(&f))).recv
+	return c.recv, true
+}
+
+// transportDialer: the dialer net/http connects with for this transport (DialContext is preferred over
+// Dial); has = false when the transport has neither (net/http then uses a zero dialer: no configured
+// limit applies); readable = false when there is one but its fields cannot be read.
+func transportDialer(tr *http.Transport) (d *net.Dialer, has, readable bool) {
+	own := &net.Dialer{Timeout: 123456789, KeepAlive: 987654321}
+	if f := tr.DialContext; f != nil {
+		pf := own.DialContext
+		d, readable = boundDialer(unsafe.Pointer(&f), unsafe.Pointer(&pf), own)
+		return d, true, readable
+	}
+	if f := tr.Dial; f != nil {
+		pf := own.Dial
+		d, readable = boundDialer(unsafe.Pointer(&f), unsafe.Pointer(&pf), own)
+		return d, true, readable
+	}
+	return nil, false, true
 }
 func dialerTrickWorks() bool {
-	d := &net.Dialer{Timeout: 123456789, KeepAlive: 987654321}
-	got := dialerOf(d.Dial)
-	return got == d
+	d := &net.Dialer{Timeout: 5, KeepAlive: 7}
+	got, has, ok := transportDialer(&http.Transport{Dial: d.Dial})
+	got2, has2, ok2 := transportDialer(&http.Transport{DialContext: d.DialContext, Dial: (&net.Dialer{}).Dial})
+	_, has3, ok3 := transportDialer(&http.Transport{Dial: func(n, a string) (net.Conn, error) { return d.Dial(n, a) }})
+	_, has4, ok4 := transportDialer(&http.Transport{})
+	return got == d && has && ok && got2 == d && has2 && ok2 && has3 && !ok3 && !has4 && ok4
 }
 
 type trFields struct {
 	rht, idle, maxidle, dial, keepalive int64
-	other                               int64 // how many other limit fields of http.Transport are set
+	other                               int64 // how many of the named other limit / dial-bypass fields are set
+	unknown                             int64 // how many further exported fields are not at their zero value
 	hasTLS                              bool
 	serverName                          string
 	skip                                bool
 	otherNames                          []string
 }
 
-func fieldsOf(tr *http.Transport, dialOK bool, want limits) trFields {
-	f := trFields{rht: int64(tr.ResponseHeaderTimeout), idle: int64(tr.IdleConnTimeout), maxidle: int64(tr.MaxIdleConnsPerHost)}
-	if dialOK && tr.Dial != nil {
-		d := dialerOf(tr.Dial)
+// the other fields of http.Transport that limit upstream connections or take the connect away from the
+// configured dialer: part of the property ("the configured limits are the ones the proxy uses")
+var limitFields = map[string]bool{"MaxConnsPerHost": true, "MaxIdleConns": true, "DialTLS": true, "DialTLSContext": true, "DisableKeepAlives": true}
+
+// fieldsOf reads what the model speaks about from a real transport; ok = false when the transport has a
+// dialer whose fields cannot be read (the case is then excluded and counted, nothing is made up).
+func fieldsOf(tr *http.Transport) (f trFields, ok bool) {
+	f = trFields{rht: int64(tr.ResponseHeaderTimeout), idle: int64(tr.IdleConnTimeout), maxidle: int64(tr.MaxIdleConnsPerHost)}
+	d, has, readable := transportDialer(tr)
+	switch {
+	case !has:
+		f.dial, f.keepalive = 0, 0 // no dialer of its own: neither configured value is in force
+	case !readable || !layoutOK:
+		return f, false
+	default:
 		f.dial, f.keepalive = int64(d.Timeout), int64(d.KeepAlive)
-	} else {
-		// not observable: report what the model expects so that the comparison is on the other fields only
-		f.dial, f.keepalive = want.dial, want.keepalive
 	}
 	if tr.TLSClientConfig != nil {
 		f.hasTLS, f.serverName, f.skip = true, tr.TLSClientConfig.ServerName, tr.TLSClientConfig.InsecureSkipVerify
 	}
-	// every other exported field of http.Transport that limits or changes connection handling:
-	// NewTransport leaves them at their zero value (found by reflection, so fields added by a
-	// newer Go are covered too)
-	// (DisableCompression is neither a limit nor connection handling: it only decides whether the
-	// transport adds an Accept-Encoding of its own, which is C07's subject; /repo 5e1efca sets it)
-	known := map[string]bool{"ResponseHeaderTimeout": true, "IdleConnTimeout": true, "MaxIdleConnsPerHost": true, "Dial": true, "TLSClientConfig": true,
-		"DisableCompression": true}
+	// every other exported field of http.Transport, found by reflection so that fields added by a newer Go
+	// are covered too: the named ones above count as limits (spec), any further field that is not at its
+	// zero value counts as unknown (correspondence only).  DisableCompression is neither: it only decides
+	// whether the transport adds an Accept-Encoding of its own, which is C07's subject; /repo 5e1efca sets it.
+	read := map[string]bool{"ResponseHeaderTimeout": true, "IdleConnTimeout": true, "MaxIdleConnsPerHost": true, "Dial": true, "DialContext": true,
+		"TLSClientConfig": true, "DisableCompression": true}
 	v := reflect.ValueOf(tr).Elem()
 	for i := 0; i < v.NumField(); i++ {
 		ft := v.Type().Field(i)
-		if !ft.IsExported() || known[ft.Name] {
+		if !ft.IsExported() || read[ft.Name] || v.Field(i).IsZero() {
 			continue
 		}
-		if !v.Field(i).IsZero() {
+		if limitFields[ft.Name] {
 			f.other++
-			f.otherNames = append(f.otherNames, ft.Name)
+		} else {
+			f.unknown++
 		}
+		f.otherNames = append(f.otherNames, ft.Name)
 	}
-	return f
+	return f, true
 }
+
+var layoutOK bool
+
+const unreadable = "the transport's dialer is not a method value of a *net.Dialer: DialTimeout/KeepAlive cannot be read, case not compared"
+
 func (f trFields) coq() string {
 	tlsc := vh.None
 	if f.hasTLS {
 		tlsc = vh.Some(fmt.Sprintf("{| tls_server_name := %s; tls_skip_verify := %s |}", vh.HxS(f.serverName), vh.Bool(f.skip)))
 	}
-	return fmt.Sprintf("{| t_rht := %s; t_idle := %s; t_maxidle := %s; t_dial := %s; t_keepalive := %s; t_tls := %s; t_other := %s |}",
-		vh.Z(f.rht), vh.Z(f.idle), vh.Z(f.maxidle), vh.Z(f.dial), vh.Z(f.keepalive), tlsc, vh.Z(f.other))
+	return fmt.Sprintf("{| t_rht := %s; t_idle := %s; t_maxidle := %s; t_dial := %s; t_keepalive := %s; t_tls := %s; t_other := %s; t_unknown := %s |}",
+		vh.Z(f.rht), vh.Z(f.idle), vh.Z(f.maxidle), vh.Z(f.dial), vh.Z(f.keepalive), tlsc, vh.Z(f.other), vh.Z(f.unknown))
 }
 
 type timeoutErr struct{ to bool }
@@ -153,9 +213,7 @@ func main() {
 	r := run.Rng
 	dialOK := dialerTrickWorks()
 	run.Notes["dialer_fields_observable"] = dialOK
-	if !dialOK {
-		run.Exclude("net.Dialer bound in Transport.Dial not recoverable with this toolchain: DialTimeout/KeepAlive not compared")
-	}
+	layoutOK = dialOK // when false every transport with a dialer is excluded and counted (fieldsOf), nothing is made up
 
 	cur := limits{} // the package starts from &config.Config{}
 
@@ -166,6 +224,7 @@ func main() {
 		n := 1 + r.Intn(10)
 		var ops, impl []string
 		var sample []string
+		readable := true
 		for k := 0; k < n; k++ {
 			if r.Intn(5) < 2 {
 				l := randLimits(r)
@@ -175,7 +234,7 @@ func main() {
 				transport.SetConfig(l.cfg())
 				cur = l
 				ops = append(ops, vh.App("SetConfig", l.coq()))
-				sample = append(sample, fmt.Sprintf("SetConfig(rht=%v)", time.Duration(l.rht)))
+				sample = append(sample, fmt.Sprintf("SetConfig(rht=%v dial=%v maxconn=%d)", time.Duration(l.rht), time.Duration(l.dial), l.maxconn))
 			} else {
 				var tc *tls.Config
 				tcoq := vh.None
@@ -190,36 +249,56 @@ func main() {
 					tcoq = vh.Some(fmt.Sprintf("{| tls_server_name := %s; tls_skip_verify := %s |}", vh.HxS(name), vh.Bool(skip)))
 				}
 				tr := transport.NewTransport(tc)
-				f := fieldsOf(tr, dialOK, cur)
+				f, ok := fieldsOf(tr)
+				readable = readable && ok
 				ops = append(ops, vh.App("NewTransport", tcoq))
 				impl = append(impl, f.coq())
 				sample = append(sample, fmt.Sprintf("NewTransport -> rht=%v idle=%v maxidle=%d dial=%v ka=%v other=%v", time.Duration(f.rht), time.Duration(f.idle), f.maxidle, time.Duration(f.dial), time.Duration(f.keepalive), f.otherNames))
 			}
 		}
+		if !readable {
+			run.Exclude(unreadable)
+			continue
+		}
 		run.Add("history", vh.App("CHist", s0.coq(), vh.List(ops), vh.List(impl)), map[string]interface{}{"ops": sample})
 	}
 
-	// 2. per-route transports: host override on https destinations
-	nRoute := run.Scale(200, 4000)
+	// 1b. SetConfig keeps the caller's pointer: a write to the struct after SetConfig reaches the next transport
+	for i := 0; i < run.Scale(6, 60); i++ {
+		c1, c2 := randLimits(r), randLimits(r)
+		c := c1.cfg()
+		transport.SetConfig(c)
+		*c = *c2.cfg()
+		f, ok := fieldsOf(transport.NewTransport(nil))
+		cur = c2
+		transport.SetConfig(cur.cfg()) // a struct nobody else holds
+		if !ok {
+			run.Exclude(unreadable)
+			continue
+		}
+		run.Add("caller-writes-after-setconfig", vh.App("CAlias", c1.coq(), c2.coq(), f.coq()),
+			map[string]interface{}{"set_rht": time.Duration(c1.rht).String(), "written_rht": time.Duration(c2.rht).String(), "transport_rht": time.Duration(f.rht).String()})
+	}
+
+	// 2. per-route transports: host override on https destinations (scheme of the destination as written,
+	// upper case included: net/url lower-cases it; option proto as written: only "https" counts)
+	nRoute := run.Scale(240, 4000)
 	for i := 0; i < nRoute; i++ {
 		if r.Intn(4) == 0 {
 			cur = randLimits(r)
 			transport.SetConfig(cur.cfg())
 		}
 		host := []string{"", "dst", "foo.com", "a.b.example", "DST", "dst.example"}[r.Intn(6)]
-		dstHTTPS := r.Intn(2) == 0
-		protoHTTPS := r.Intn(3) == 0
+		scheme := []string{"http", "https", "http", "https", "HTTPS", "Http"}[r.Intn(6)]
+		dstHTTPS := strings.EqualFold(scheme, "https")
+		proto := []string{"", "", "", "https", "https", "HTTPS", "tcp", "http", "https2"}[r.Intn(9)]
 		skip := r.Intn(2) == 0
-		scheme := "http"
-		if dstHTTPS {
-			scheme = "https"
-		}
 		var opts []string
 		if host != "" {
 			opts = append(opts, "host="+host)
 		}
-		if protoHTTPS {
-			opts = append(opts, "proto=https")
+		if proto != "" {
+			opts = append(opts, "proto="+proto)
 		}
 		if skip {
 			opts = append(opts, "tlsskipverify=true")
@@ -244,9 +323,14 @@ func main() {
 		}
 		impl := vh.None
 		if t.Transport != nil {
-			impl = vh.Some(fieldsOf(t.Transport, dialOK, cur).coq())
+			f, ok := fieldsOf(t.Transport)
+			if !ok {
+				run.Exclude(unreadable)
+				continue
+			}
+			impl = vh.Some(f.coq())
 		}
-		run.Add("route-transport", vh.App("CRoute", cur.coq(), vh.HxS(host), vh.Bool(dstHTTPS), vh.Bool(protoHTTPS), vh.Bool(skip), impl),
+		run.Add("route-transport", vh.App("CRoute", cur.coq(), vh.HxS(host), vh.Bool(dstHTTPS), vh.HxS(proto), vh.Bool(skip), impl),
 			map[string]interface{}{"text": text, "has_transport": t.Transport != nil})
 	}
 
@@ -265,6 +349,10 @@ func main() {
 		{"EEOF", io.EOF}, {"ECanceled", context.Canceled},
 		{"EOther", errors.New("boom")}, {"EOther", fmt.Errorf("wrapped: %w", io.EOF)}, {"EOther", io.ErrUnexpectedEOF},
 		{"EOther", fmt.Errorf("wrapped: %w", context.Canceled)},
+		// a timeout that is wrapped: not a net.Error itself
+		{"EWrapsTimeout", fmt.Errorf("%w", timeoutErr{true})}, {"EWrapsTimeout", fmt.Errorf("round trip: %w", uerrT)},
+		{"EWrapsTimeout", fmt.Errorf("%w", os.ErrDeadlineExceeded)},
+		{"EOther", fmt.Errorf("%w", timeoutErr{false})},
 	}
 	for _, k := range kinds {
 		// classify with the predicates the model's kinds are defined by, not by our own label
@@ -279,6 +367,11 @@ func main() {
 			kind = "EEOF"
 		} else if k.err == context.Canceled {
 			kind = "ECanceled"
+		} else {
+			var ne net.Error
+			if errors.As(k.err, &ne) && ne.Timeout() {
+				kind = "EWrapsTimeout"
+			}
 		}
 		_ = k.coq
 		rec := httptest.NewRecorder()
@@ -286,76 +379,112 @@ func main() {
 		run.Add("error-status", vh.App("CErr", kind, vh.Z(int64(rec.Code))), map[string]interface{}{"err": fmt.Sprintf("%T %v", k.err, k.err), "status": rec.Code})
 	}
 
-	// 4. the limit in action: slow upstream behind the real HTTPProxy
+	// 4. the limit in action: slow upstream behind the real HTTPProxy, for each kind of target (kind 0: plain
+	// http, default transport; 1: TLS upstream + tlsskipverify=true, the skip-verify transport; 2: TLS upstream
+	// + host override, the transport route.addTarget builds).  All three transports and the table are built
+	// under one SetConfig, as in main().
 	type sc struct{ limit, delay int64 }
-	// the last two have a limit long enough for "within that time" to tell one attempt from two
-	scen := []sc{{150, 0}, {150, 40}, {150, 400}, {150, 700}, {300, 100}, {300, 900}, {0, 250}, {80, 500}, {1500, 4000}, {1200, 100}}
+	// 1500/4000 and 1200/100 have a limit long enough for "within that time" to tell one attempt from two;
+	// a negative response-header timeout is no limit (net/http starts the timer only for d > 0)
+	scen := []sc{{150, 0}, {150, 40}, {150, 400}, {150, 700}, {300, 100}, {300, 900}, {0, 250}, {80, 500}, {1500, 4000}, {1200, 100}, {-200, 300}, {-1, 0}}
 	if run.Thorough() {
 		for i := 0; i < 24; i++ {
 			scen = append(scen, sc{int64(50 + r.Intn(400)), int64(r.Intn(1200))})
 		}
 	}
-	// drop scenarios whose delay is within 60 ms of the limit: the race is then decided by the scheduler
+	kindName := []string{"default", "skip-verify", "per-route host override"}
+	kindOpts := []string{"", ` opts "tlsskipverify=true"`, ` opts "host=upstream.example tlsskipverify=true"`}
 	type res struct {
 		s       sc
+		kind    int
 		ust     int
 		status  int
 		elapsed int64
 		hits    int64
 	}
-	results := make([]res, len(scen))
+	var results []*res
+	var remeasured int64
 	var wg sync.WaitGroup
-	var mu sync.Mutex // SetConfig/NewTransport pairs must not interleave: the state is a package variable
+	var mu sync.Mutex // SetConfig/NewTransport groups must not interleave: the state is a package variable
 	for i, s := range scen {
+		// drop scenarios whose delay is within 60 ms of the limit: the race is then decided by the scheduler
 		if s.limit > 0 && abs(s.delay-s.limit) < 60 {
 			run.Exclude("delay within 60ms of the limit: outcome decided by the scheduler")
-			results[i].status = -1
 			continue
 		}
-		ust := []int{200, 201, 404, 500}[r.Intn(4)]
-		l := limits{rht: int64(time.Duration(s.limit) * time.Millisecond)}
-		mu.Lock()
-		transport.SetConfig(l.cfg())
-		tr := transport.NewTransport(nil)
-		mu.Unlock()
-		wg.Add(1)
-		go func(i int, s sc, ust int, tr *http.Transport) {
-			defer wg.Done()
-			var hits int64
-			up := httptest.NewServer(http.HandlerFunc(func(w http.ResponseWriter, rq *http.Request) {
-				atomic.AddInt64(&hits, 1)
-				time.Sleep(time.Duration(s.delay) * time.Millisecond)
-				w.WriteHeader(ust)
-			}))
-			defer up.Close()
-			p := &proxy.HTTPProxy{Transport: tr, Lookup: func(rq *http.Request) *route.Target {
-				tbl, _ := route.NewTable(bytes.NewBufferString("route add mock / " + up.URL))
-				return tbl.Lookup(rq, "", route.Picker["rr"], route.Matcher["prefix"], nil, true)
-			}}
-			rec := httptest.NewRecorder()
-			t0 := time.Now()
-			p.ServeHTTP(rec, httptest.NewRequest("GET", "http://front/", nil))
-			el := time.Since(t0).Milliseconds()
-			time.Sleep(30 * time.Millisecond) // a request sent at the very end is still counted
-			results[i] = res{s, ust, rec.Code, el, atomic.LoadInt64(&hits)}
-			tr.CloseIdleConnections()
-		}(i, s, ust, tr)
+		for kind := 0; kind < 3; kind++ {
+			if !run.Thorough() && kind != i%3 && i >= 6 && s.limit != 1500 {
+				continue // quick tier: all three kinds for the first six scenarios and the long timeout, one kind for the rest
+			}
+			x := &res{s: s, kind: kind, ust: []int{200, 201, 404, 500}[r.Intn(4)]}
+			results = append(results, x)
+			wg.Add(1)
+			go func(x *res) {
+				defer wg.Done()
+				h := http.HandlerFunc(func(w http.ResponseWriter, rq *http.Request) {
+					atomic.AddInt64(&x.hits, 1)
+					time.Sleep(time.Duration(x.s.delay) * time.Millisecond)
+					w.WriteHeader(x.ust)
+				})
+				var up *httptest.Server
+				if x.kind == 0 {
+					up = httptest.NewServer(h)
+				} else {
+					up = httptest.NewTLSServer(h)
+				}
+				defer up.Close()
+				mu.Lock()
+				transport.SetConfig(limits{rht: int64(time.Duration(x.s.limit) * time.Millisecond)}.cfg())
+				plain := transport.NewTransport(nil)
+				insecure := transport.NewTransport(&tls.Config{InsecureSkipVerify: true})
+				tbl, err := route.NewTable(bytes.NewBufferString("route add mock / " + up.URL + kindOpts[x.kind]))
+				mu.Unlock()
+				if err != nil {
+					panic(err)
+				}
+				p := &proxy.HTTPProxy{Transport: plain, InsecureTransport: insecure, Lookup: func(rq *http.Request) *route.Target {
+					return tbl.Lookup(rq, "", route.Picker["rr"], route.Matcher["prefix"], nil, true)
+				}}
+				measure := func() {
+					atomic.StoreInt64(&x.hits, 0)
+					rec := httptest.NewRecorder()
+					t0 := time.Now()
+					p.ServeHTTP(rec, httptest.NewRequest("GET", "http://front/", nil))
+					x.elapsed = time.Since(t0).Milliseconds()
+					x.status = rec.Code
+					time.Sleep(30 * time.Millisecond) // a request sent at the very end is still counted
+				}
+				measure()
+				// No request, served or given up, takes longer than the upstream's own delay: an observation a second
+				// beyond it is a stall of the machine (the quick tier shares it with other checks) and is measured
+				// once more; a defect that holds the client shows again.  The faster observation is reported.
+				if x.elapsed > x.s.delay+1000 {
+					first := *x
+					time.Sleep(time.Duration(x.s.delay) * time.Millisecond)
+					measure()
+					atomic.AddInt64(&remeasured, 1)
+					if first.elapsed < x.elapsed {
+						x.elapsed, x.status, x.hits = first.elapsed, first.status, first.hits
+					}
+				}
+				plain.CloseIdleConnections()
+				insecure.CloseIdleConnections()
+			}(x)
+		}
 	}
 	wg.Wait()
 	cur = limits{} // leave a defined state: whatever was set last is irrelevant below
 	transport.SetConfig(cur.cfg())
+	run.Notes["slow_upstream_remeasured"] = atomic.LoadInt64(&remeasured)
 	for _, x := range results {
-		if x.status == -1 {
-			continue
-		}
-		run.Add("slow-upstream", vh.App("CServe", vh.Z(x.s.limit), vh.Z(x.s.delay), vh.Z(int64(x.ust)), vh.Z(int64(x.status)), vh.Z(x.elapsed), vh.Z(3000), vh.Z(x.hits)),
-			map[string]interface{}{"limit_ms": x.s.limit, "delay_ms": x.s.delay, "upstream_status": x.ust, "client_status": x.status, "elapsed_ms": x.elapsed, "upstream_hits": x.hits})
+		run.Add("slow-upstream", vh.App("CServe", vh.N(x.kind), vh.Z(x.s.limit), vh.Z(x.s.delay), vh.Z(int64(x.ust)), vh.Z(int64(x.status)), vh.Z(x.elapsed), vh.Z(atomic.LoadInt64(&x.hits))),
+			map[string]interface{}{"transport": kindName[x.kind], "limit_ms": x.s.limit, "delay_ms": x.s.delay, "upstream_status": x.ust, "client_status": x.status, "elapsed_ms": x.elapsed, "upstream_hits": x.hits})
 	}
 	realMain(run, r)
-	// 5. the dial timeout in action for each kind of transport NewTransport builds: the default one, the
-	// skip-verify one (main.go InsecureTransport) and a per-route host-override transport.  1 ns cannot
-	// be met even on loopback; 5 s always is.
-	for _, lim := range []int64{1, int64(5 * time.Second)} {
+	// 5. the dial timeout in action for each kind of target: the default transport, the skip-verify one
+	// (main.go InsecureTransport) and a per-route host-override transport.  1 ns cannot be met even on
+	// loopback; 5 s always is; 0 is no limit; a negative value is a deadline in the past (net.Dialer).
+	for _, lim := range []int64{1, int64(5 * time.Second), 0, -1, -int64(5 * time.Second)} {
 		mu.Lock()
 		transport.SetConfig(limits{dial: lim}.cfg())
 		plain := transport.NewTransport(nil)
@@ -364,18 +493,12 @@ func main() {
 			ust := []int{200, 201, 404}[r.Intn(3)]
 			h := http.HandlerFunc(func(w http.ResponseWriter, rq *http.Request) { w.WriteHeader(ust) })
 			var up *httptest.Server
-			opts := ""
-			switch kind {
-			case 0:
+			if kind == 0 {
 				up = httptest.NewServer(h)
-			case 1:
+			} else {
 				up = httptest.NewTLSServer(h)
-				opts = ` opts "tlsskipverify=true"`
-			case 2:
-				up = httptest.NewTLSServer(h)
-				opts = ` opts "host=upstream.example tlsskipverify=true"` // gets its own transport from route.go
 			}
-			tbl, err := route.NewTable(bytes.NewBufferString("route add mock / " + up.URL + opts))
+			tbl, err := route.NewTable(bytes.NewBufferString("route add mock / " + up.URL + kindOpts[kind]))
 			if err != nil {
 				panic(err)
 			}
@@ -386,7 +509,7 @@ func main() {
 			p.ServeHTTP(rec, httptest.NewRequest("GET", "http://front/", nil))
 			up.Close()
 			run.Add("dial-timeout", vh.App("CDial", vh.N(kind), vh.Z(lim), vh.Z(1000), vh.Z(int64(ust)), vh.Z(int64(rec.Code))),
-				map[string]interface{}{"transport": []string{"default", "skip-verify", "per-route host override"}[kind], "dial_timeout_ns": lim, "upstream_status": ust, "client_status": rec.Code})
+				map[string]interface{}{"transport": kindName[kind], "dial_timeout_ns": lim, "upstream_status": ust, "client_status": rec.Code})
 		}
 		mu.Unlock()
 	}
@@ -395,11 +518,13 @@ func main() {
 }
 
 // realMain runs fabio's real main() (driver /repo/verif_c19_test.go, one `go test` process per
-// configuration since main() parses flags once) with the static backend and two routes to one slow TLS
-// upstream: served by the skip-verify transport and by a per-route host-override transport, which
-// route.addTarget builds while the FIRST routing table is built, i.e. before the listeners start.
-// Observed: the limit fields of the per-route transport in the installed table (a CRoute case) and
-// status, time and upstream hits of real requests through the real listener (CServe cases).
+// configuration since main() parses flags once) with the static backend and three routes: a plain-http
+// upstream (default transport), and one slow TLS upstream served by the skip-verify transport and by a
+// per-route host-override transport, which route.addTarget builds while the FIRST routing table is
+// built, i.e. before the listeners start.
+// Observed: the private transport of every target of the installed table (one CMain case: the model is
+// main_start from the initial package state) and status, time and upstream hits of real requests
+// through the real listener (CServe cases, one per route and delay).
 func realMain(run *vh.Run, r *rand.Rand) {
 	repo := os.Getenv("VERIF_REPO")
 	if repo == "" {
@@ -430,6 +555,9 @@ func realMain(run *vh.Run, r *rand.Rand) {
 		}
 		l := limits{rht: rht, idle: int64(1+r.Intn(90)) * int64(time.Second), maxconn: int64(1 + r.Intn(500)),
 			dial: int64(2+r.Intn(5)) * int64(time.Second), keepalive: int64(1+r.Intn(60)) * int64(time.Second)}
+		if i%2 == 1 {
+			l.keepalive, l.idle = -l.keepalive, -l.idle // negative values pass config.Load and reach the transport as they are
+		}
 		rhtMs := rht / int64(time.Millisecond)
 		job := in{l.rht, l.idle, l.dial, l.keepalive, int(l.maxconn), []int64{0, rhtMs / 3, rhtMs*2 + 700}}
 		b, _ := json.Marshal(job)
@@ -441,12 +569,17 @@ func realMain(run *vh.Run, r *rand.Rand) {
 		outb, err := c.CombinedOutput()
 		var res struct {
 			Targets []struct {
-				Path         string
-				HasTransport bool
-				RHT, Idle    int64
-				MaxIdle      int
-				ServerName   string
-				Skip         bool
+				Path                      string
+				Host, Proto, Scheme       string
+				TLSSkipVerify             bool
+				HasTransport              bool
+				RHT, Idle                 int64
+				MaxIdle                   int
+				ServerName                string
+				Skip                      bool
+				HasDialer, DialerReadable bool
+				Dial, KeepAlive           int64
+				Other                     []string
 			}
 			Reqs []struct {
 				Path    string
@@ -454,6 +587,8 @@ func realMain(run *vh.Run, r *rand.Rand) {
 				Status  int
 				Elapsed int64
 				Hits    int64
+				// the driver repeats a request whose first observation was more than 1 s beyond the upstream's delay
+				Remeasured bool
 			}
 		}
 		ob, rerr := os.ReadFile(outF)
@@ -465,27 +600,43 @@ func realMain(run *vh.Run, r *rand.Rand) {
 			run.Violation(run.NextID(), fmt.Sprintf("fabio's real main() did not come up or the driver failed with limits %+v", job), tail)
 			continue
 		}
+		var tgs, impl []string
+		var sample []map[string]interface{}
+		readable := true
+		kindOf := map[string]int{}
 		for _, tg := range res.Targets {
-			impl := vh.None
-			host := ""
-			if tg.HasTransport {
-				host = tg.ServerName
-				// dial timeout and keep-alive sit in a closure: not observable from another process, taken as configured
-				f := trFields{rht: tg.RHT, idle: tg.Idle, maxidle: int64(tg.MaxIdle), dial: l.dial, keepalive: l.keepalive, hasTLS: true, serverName: tg.ServerName, skip: tg.Skip}
-				impl = vh.Some(f.coq())
+			tgs = append(tgs, fmt.Sprintf("{| tg_host := %s; tg_dst_https := %s; tg_proto := %s; tg_skip := %s |}",
+				vh.HxS(tg.Host), vh.Bool(strings.EqualFold(tg.Scheme, "https")), vh.HxS(tg.Proto), vh.Bool(tg.TLSSkipVerify)))
+			kindOf[tg.Path] = 0
+			if tg.TLSSkipVerify {
+				kindOf[tg.Path] = 1
 			}
-			if tg.Path == "/override" {
-				host = "upstream.example"
+			if !tg.HasTransport {
+				impl = append(impl, vh.None)
+			} else {
+				kindOf[tg.Path] = 2
+				if tg.HasDialer && !tg.DialerReadable {
+					readable = false
+				}
+				// the driver reports the named limit fields only; further fields are compared in the in-process classes
+				f := trFields{rht: tg.RHT, idle: tg.Idle, maxidle: int64(tg.MaxIdle), dial: tg.Dial, keepalive: tg.KeepAlive, hasTLS: true, serverName: tg.ServerName, skip: tg.Skip,
+					other: int64(len(tg.Other))}
+				impl = append(impl, vh.Some(f.coq()))
 			}
-			run.Add("real-main-route-transport", vh.App("CRoute", l.coq(), vh.HxS(host), vh.Bool(true), vh.Bool(false), vh.Bool(true), impl),
-				map[string]interface{}{"route": tg.Path, "limits": job, "has_transport": tg.HasTransport, "rht": time.Duration(tg.RHT).String(), "idle": time.Duration(tg.Idle).String(), "maxidle": tg.MaxIdle})
+			sample = append(sample, map[string]interface{}{"route": tg.Path, "has_transport": tg.HasTransport, "rht": time.Duration(tg.RHT).String(), "idle": time.Duration(tg.Idle).String(),
+				"maxidle": tg.MaxIdle, "dial": time.Duration(tg.Dial).String(), "keepalive": time.Duration(tg.KeepAlive).String(), "other": tg.Other})
+		}
+		if !readable {
+			run.Exclude(unreadable)
+		} else {
+			run.Add("real-main-table", vh.App("CMain", l.coq(), vh.List(tgs), vh.List(impl)), map[string]interface{}{"limits": job, "targets": sample})
 		}
 		for _, q := range res.Reqs {
 			if abs(q.DelayMs-rhtMs) < 60 {
 				continue
 			}
-			run.Add("real-main-slow-upstream", vh.App("CServe", vh.Z(rhtMs), vh.Z(q.DelayMs), vh.Z(200), vh.Z(int64(q.Status)), vh.Z(q.Elapsed), vh.Z(3000), vh.Z(q.Hits)),
-				map[string]interface{}{"route": q.Path, "limit_ms": rhtMs, "delay_ms": q.DelayMs, "client_status": q.Status, "elapsed_ms": q.Elapsed, "upstream_hits": q.Hits})
+			run.Add("real-main-slow-upstream", vh.App("CServe", vh.N(kindOf[q.Path]), vh.Z(rhtMs), vh.Z(q.DelayMs), vh.Z(200), vh.Z(int64(q.Status)), vh.Z(q.Elapsed), vh.Z(q.Hits)),
+				map[string]interface{}{"route": q.Path, "limit_ms": rhtMs, "delay_ms": q.DelayMs, "client_status": q.Status, "elapsed_ms": q.Elapsed, "upstream_hits": q.Hits, "remeasured": q.Remeasured})
 		}
 	}
 }
